@@ -246,6 +246,46 @@ def run(tier, seed, replay=None):
         except Exception as ex:
             V.fail("local correspondence: the model could not be evaluated", {"exc": str(ex)[:300]}, failing_input=False)
     dist["AMEn local step / interface recursions exact"] = n_local
+    # ---- the DMRG supercore against Model/Local.v `supercore` (theorems C11_supercore_galerkin / _blind_component), through the routine itself: with the QR of
+    # torchtt._dmrg stubbed by the identity factorisation (Q = the matrix, R = I: valid for tall unfoldings) the orthogonalisation sweep leaves an integer guess
+    # as it is, the interfaces and the first supercore dmrg_matvec builds are exact integer arithmetic; the matrix handed to the first SVD IS that supercore
+    class _Stop(Exception): pass
+    sc_cases, sc_meta = [], []
+    orig_QR, orig_SVD = DM.QR, DM.SVD
+    for j in range(12 if tier == "quick" else 120):
+        d = rng_l.choice([2, 3, 4]); M = [rng_l.choice([2, 3]) for _ in range(d)]; N = [rng_l.choice([1, 2, 3]) for _ in range(d)]
+        rA = [1] + [rng_l.choice([1, 2]) for _ in range(d - 1)] + [1]; rx = [1] + [rng_l.choice([1, 2]) for _ in range(d - 1)] + [1]
+        ry = [1] + [rng_l.choice([1, 2]) for _ in range(d - 1)] + [1]            # guess ranks <= 2 <= M[k] * ry[k+1]: every unfoldings of the sweep is tall
+        Ac = [ia((rA[i], M[i], N[i], rA[i + 1])) for i in range(d)]; xc = [ia((rx[i], N[i], rx[i + 1])) for i in range(d)]; yc = [ia((ry[i], M[i], ry[i + 1])) for i in range(d)]
+        seen = []
+        def qr_stub(mat): return mat, torch.eye(mat.shape[1], dtype=mat.dtype)
+        def svd_spy(mat):
+            seen.append(mat.clone()); raise _Stop()
+        try:
+            DM.QR, DM.SVD = qr_stub, svd_spy
+            try:
+                DM.dmrg_matvec_python(torchtt.TT([T_(c) for c in Ac]), torchtt.TT([T_(c) for c in xc]), torchtt.TT([T_(c) for c in yc]), nswp=2, eps=1e-10)
+            except _Stop:
+                pass
+        except Exception as ex:
+            V.fail("dmrg supercore correspondence raises %s" % type(ex).__name__, {"exc": str(ex)[:200], "M": M, "N": N}, failing_input=False); continue
+        finally:
+            DM.QR, DM.SVD = orig_QR, orig_SVD
+        if not seen:
+            V.fail("dmrg supercore correspondence: the routine never reached its SVD", {"M": M, "N": N}, failing_input=False); continue
+        l3 = lambda cs: "[" + ";".join(o3(c) for c in cs) + "]"; l4 = lambda cs: "[" + ";".join(o4(c) for c in cs) + "]"
+        sc_cases.append("[check_dmrg_first (R:=Z) %s %s %s %s]" % (l3(yc), l4(Ac), l3(xc), zl(seen[0].numpy())))
+        sc_meta.append({"local_correspondence": "dmrg supercore", "d": d, "M": M, "N": N, "rA": rA, "rx": rx, "ry": ry})
+    n_sc = 0
+    if ok_make and sc_cases:
+        try:
+            codes = coqrun.eval_nat_lists("C11_sc", "From TT Require Import RingSig Instances Core Local.", "", sc_cases, shard=40)
+            for dsc, c in zip(sc_meta, codes):
+                if c != [0]: V.fail("correspondence(model/impl): the first supercore of dmrg_matvec differs from Model/Local.v supercore", dict(dsc, model_code=c, expr=sc_cases[sc_meta.index(dsc)][:1500]))
+                else: n_sc += 1
+        except Exception as ex:
+            V.fail("dmrg supercore correspondence: the model could not be evaluated", {"exc": str(ex)[:300]}, failing_input=False)
+    dist["DMRG supercore exact (through the routine)"] = n_sc
     # ---- theorem C11_amen_update_exact on the routine itself: a guess whose frame carries the exact product (the cores of the exact product with the
     # first core replaced by noise, or the exact product times a factor) is turned into the exact product by ONE sweep, to round-off - not just to eps
     rng_e = random.Random(seed + 73); n_exact = 0
